@@ -1,1 +1,5 @@
-
+import PfdlProofs.StLemmas
+import PfdlProofs.Norm
+import PfdlProofs.Account
+import PfdlProofs.Deliver
+import PfdlProofs.ApiInv
